@@ -483,6 +483,35 @@ def gen_subs_case(rng, P):
     g.procs[1] = prog
     return 'core', g.lines()
 
+def gen_pill_case(rng, P):
+    """poison pills against everything that can be in the recipient's mailbox: earlier and later user messages (every priority), system
+    notifications (the recipient subscribes to the system topics), batched events, pill and quit from the same callback, loop stop flush"""
+    g = _base(rng, P, 3, hooks=rng.random() < 0.3)
+    prog = ['ctxreg 1', 'reg 0', 'reg 1', 'reg 2', 'start 0', 'start 1', 'start 2']
+    for t in rng.sample(SYS_TOPICS, rng.randint(1, 4)): prog.append('sub 1 %d %d 0 %d' % (t, rng.choice([0, 0, 1, 2, 3]), rng.randint(1, 99)))
+    for t in rng.sample([1, 2, 4], rng.randint(0, 2)): prog.append('sub 1 %d %d 0 %d' % (t, rng.choice([0, 1, 2, 3]), rng.randint(1, 99)))
+    if rng.random() < 0.4: prog.append('batchsize 1 %d' % rng.choice([2, 3]))
+    def after_pill():
+        return rng.choice([['quit %d' % rng.randint(1, 9)], ['tell 0 1 %d 0' % g.newdata()], ['publish 0 %d %d 0' % (rng.choice([1, 2, 4]), g.newdata())],
+                           ['pause 2'], ['stop 2'], ['start 2'], ['quit 2', 'tell 2 1 %d 0' % g.newdata()], []])
+    specs = []
+    for _ in range(rng.randint(1, 4)):
+        body = []
+        if rng.random() < 0.6: body = ['pill 0 1'] + after_pill()
+        specs.append('%d:1' % (g.newproc(body) if body else 0))
+    g.cbs = [c for c in g.cbs if not c.startswith('cb 0 evt 0 ')] + ['cb 0 evt 0 ' + ' '.join(specs)]
+    for _ in range(rng.randint(3, 8)):
+        x = rng.random()
+        if x < 0.35: prog += ['tell 2 0 %d 0' % g.newdata(), 'dispatch']          # wakes module 0, whose handler may send the pill
+        elif x < 0.5: prog += ['tell 2 1 %d 0' % g.newdata()]
+        elif x < 0.6: prog += ['pill 2 1'] + after_pill() + ['dispatch']
+        elif x < 0.7: prog += ['publish 2 %d %d 0' % (rng.choice([1, 2, 4]), g.newdata())]
+        elif x < 0.8: prog += [rng.choice(['pause 2', 'resume 2', 'stop 2', 'start 2', 'start 1'])]
+        else: prog.append('dispatch')
+    prog += ['dispatch', 'state 1', 'quit 4', 'dispatch', 'dispatch', 'state 1', 'live', 'dereg 0', 'dereg 1', 'dereg 2', 'ctxdereg', 'live']
+    g.procs[1] = prog
+    return 'core', g.lines()
+
 def gen_sources_or_subs_case(rng, P):
     return (gen_subs_case if rng.random() < 0.35 else gen_sources_case)(rng, P)
 
